@@ -41,6 +41,9 @@ type StoreFault struct {
 	Op  string `json:"op"`  // begin | set | commit
 	At  int    `json:"at"`  // the At-th operation of that kind after the pipeline was started (1-based)
 	Key string `json:"key"` // optional key prefix filter for set ("connector:" / "pipeline:")
+	// AfterEmit: operations are counted only once the first batch has left a source (skips the
+	// writes of start-up)
+	AfterEmit bool `json:"after_emit,omitempty"`
 }
 
 type Step struct {
@@ -175,7 +178,7 @@ func (r *runner) run() {
 	r.log.Add("Reset", "scenario", sc.ID, "engine", sc.Engine, "srcs", srcIDs, "dsts", dstIDs, "nrec", srcN,
 		"procs", procInfo, "window", sc.DLQ.Window, "threshold", sc.DLQ.Threshold,
 		"persister", sc.Persister, "features", sc.Features,
-		"max_retries", sc.MaxRetry, "min_delay_ms", sc.MinMs, "max_delay_ms", sc.MaxMs)
+		"max_retries", sc.MaxRetry, "min_delay_ms", sc.MinMs, "max_delay_ms", sc.MaxMs, "retries_window_ms", sc.WindowMs)
 
 	r.world = fakes.NewWorld(r.log)
 	r.db = store.New(r.log)
@@ -315,6 +318,9 @@ func (r *runner) storeHook(op store.Op) error {
 			continue
 		}
 		if f.Key != "" && !strings.HasPrefix(op.Key, f.Key) {
+			continue
+		}
+		if f.AfterEmit && !r.world.Emitted() {
 			continue
 		}
 		k := f.Op + "|" + f.Key
@@ -824,7 +830,10 @@ func (r *runner) finalize() {
 		select {
 		case <-done:
 		case <-time.After(hangBound):
-			r.log.Add("Hang", "call", "WaitPersisted")
+			// not a control call of the pipeline: the harness's own wait for the shared persister (what the
+			// server does at shutdown). Recorded as an observation, not as a Hang of the engine's API - see
+			// DESIGN.md, observation O1 (a failed flush whose error nobody reads blocks the callback forever).
+			r.log.Add("PersistWaitTimeout", "goroutines", goroutineDump())
 		}
 	}
 	r.log.Quiesce(3*time.Millisecond, time.Second)
